@@ -217,3 +217,178 @@ def capture_energy_generation_sums_all_capture_reactions(nn: int, ng: int, n1: f
             for r in base:
                 expected = expected + dens[i] * kap[i] * scale[i] * base[r][g]
         assert eq(m[g], expected)
+
+
+# ----------------------------------------------------------------------------- MacroscopicCrossSectionCreator and block chi
+Creator = repo("armi.nuclearDataIO.xsCollections:MacroscopicCrossSectionCreator")
+XSCollection = repo("armi.nuclearDataIO.xsCollections:XSCollection")
+
+
+class Mat:
+    """dense stand-in for scipy.sparse.csr_matrix (collaborator outside the engine).  Assumed contract = scipy's:
+    M * scalar and M + M elementwise, 0 + M is M (start value of sum()), M.sum(axis=0).getA1() the column sums,
+    M.diagonal() the diagonal."""
+
+    def __init__(self, a):
+        self.a = a
+
+    def __mul__(self, k):
+        return Mat(self.a * k)
+
+    def __add__(self, other):
+        return Mat(self.a + other.a)
+
+    def __radd__(self, other):
+        if isinstance(other, Mat):
+            return Mat(other.a + self.a)
+        if other == 0:
+            return self
+        raise NotImplementedError("adding a nonzero scalar to a sparse matrix is not supported")
+
+    def sum(self, axis=None):
+        n = self.a.shape[0]
+        return Mat(np.array([sum([self.a[i][j] for i in range(n)]) for j in range(n)]))
+
+    def getA1(self):
+        return self.a
+
+    def diagonal(self):
+        return np.array([self.a[i][i] for i in range(self.a.shape[0])])
+
+
+class DenseSparse:
+    """stand-in for the module scipy.sparse as used by _initializeMacros: csr_matrix(shape) is the zero matrix"""
+
+    @staticmethod
+    def csr_matrix(shape):
+        return Mat(np.zeros(shape))
+
+
+class Block:
+    """stand-in for a Block: composition and cross-section suffix (contracts of getNuclides / getMicroSuffix /
+    getNuclideNumberDensities / getNumberDensities: the stored name -> density map)"""
+
+    def getNuclides(self):
+        return list(self.dens)
+
+    def getMicroSuffix(self):
+        return SFX
+
+    def getNuclideNumberDensities(self, names):
+        return [self.dens[n] for n in names]
+
+    def getNumberDensities(self):
+        return dict(self.dens)
+
+
+VEC = ["nGamma", "nalph", "np", "nd", "nt", "fission", "n2n"]
+
+
+def full_library(nn, ng, base, scale, sc):
+    """nuclide i carries: vector reaction r = scale[i] * base[r]; nu, chi; total/transport; three scatter matrices
+    (entries sc[name][row][col], scaled); nuclide 'Z' of another suffix must be ignored"""
+    nucs = {}
+    for i in range(nn):
+        mic = new(Micro)
+        for r in VEC + ["neutronsPerFission", "chi", "total", "transport"]:
+            setattr(mic, r, arr([scale[i] * base[r][0], scale[i] * base[r][1]], ng))
+        for m in ["elasticScatter", "inelasticScatter", "n2nScatter"]:
+            setattr(mic, m, Mat(np.array([[scale[i] * sc[m][a][b] for b in range(ng)] for a in range(ng)])))
+        nucs[NAMES[i] + SFX] = new(Nuclide, name=NAMES[i], micros=mic)
+    return new(Library, nuclides=nucs, numGroups=ng)
+
+
+@lemma(gen={"nn": (1, 2), "ng": (1, 2), "n1": (1e-4, 0.1), "n2": (1e-4, 0.1), "s": (0.1, 5.0), "tr1": (0.1, 20.0), "tr2": (0.1, 20.0)},
+       overrides={"armi.nuclearDataIO.xsCollections:sparse": "DenseSparse"})
+def creator_builds_weighted_sums_and_derived_quantities(
+        nn: int, ng: int, n1: float, n2: float, s: float,
+        g1: float, g2: float, al1: float, al2: float, p1: float, p2: float, d1: float, d2: float, t1: float, t2: float,
+        f1: float, f2: float, w1: float, w2: float, nu1: float, nu2: float, tr1: float, tr2: float,
+        e11: float, e12: float, e21: float, e22: float, i11: float, i12: float, i21: float, i22: float,
+        m11: float, m12: float, m21: float, m22: float):
+    """createMacrosFromMicros (real _initializeMacros, _convertBasicXS, _computeAbsorptionXS, _convertScatterMatrices,
+    _computeDiffusionConstants, _buildTotalScatterMatrix, _computeRemovalXS, getTotalScatterMatrix):
+    every vector reaction and scatter matrix = sum_i N_i x micro_i; absorption = capture + fission + n2n;
+    total scatter = elastic + inelastic + 2 n2n; removal = absorption - n2n + out-scatter (column sum - diagonal).
+    1..2 nuclides (the second carries the first's data scaled by s) x 1..2 groups; positive densities."""
+    nn = choose(nn, 1, 2)
+    ng = choose(ng, 1, 2)
+    dens = [n1, n2]
+    scale = [1.0, s]
+    assume(n1 > 0 and n2 > 0)
+    assume(tr1 > 0 and tr2 > 0 and s > 0)  # transport > 0: diffusion constant 1/(3 transport) is defined
+    base = {"nGamma": [g1, g2], "nalph": [al1, al2], "np": [p1, p2], "nd": [d1, d2], "nt": [t1, t2], "fission": [f1, f2],
+            "n2n": [w1, w2], "neutronsPerFission": [nu1, nu2], "chi": [1.0, 0.0], "total": [tr1, tr2], "transport": [tr1, tr2]}
+    sc = {"elasticScatter": [[e11, e12], [e21, e22]], "inelasticScatter": [[i11, i12], [i21, i22]], "n2nScatter": [[m11, m12], [m21, m22]]}
+    lib = full_library(nn, ng, base, scale, sc)
+    blk = new(Block, dens={NAMES[i]: dens[i] for i in range(nn)})
+    mc = Creator()
+    m = mc.createMacrosFromMicros(lib, blk)
+    w = sum([dens[i] * scale[i] for i in range(nn)])  # sum_i N_i x (scale of nuclide i)
+    w2s = sum([dens[i] * scale[i] * scale[i] for i in range(nn)])
+    for g in range(ng):
+        for r in VEC + ["total", "transport"]:
+            assert eq(m[r][g], w * base[r][g]), "vector reaction = density-weighted sum"
+        assert eq(m.nuSigF[g], w2s * base["fission"][g] * base["neutronsPerFission"][g]), "nu-fission = sum N nu sigma_f"
+        assert eq(m.absorption[g], w * sum([base[r][g] for r in VEC])), "absorption = capture + fission + n2n"
+        assert eq(m.diffusionConstants[g] * 3.0 * m.transport[g], 1.0)
+        for h in range(ng):
+            for name in ["elasticScatter", "inelasticScatter", "n2nScatter"]:
+                assert eq(m[name].a[g][h], w * sc[name][g][h]), "scatter matrix = density-weighted sum"
+            assert eq(m.totalScatter.a[g][h], w * (sc["elasticScatter"][g][h] + sc["inelasticScatter"][g][h] + 2.0 * sc["n2nScatter"][g][h]))
+        out = sum([m.totalScatter.a[h][g] for h in range(ng)]) - m.totalScatter.a[g][g]
+        assert eq(m.removal[g], m.absorption[g] - m.n2n[g] + out), "removal = absorption - n2n + out-scatter"
+
+
+def chi_case(nn, ng, dens, chi, q, f, u):
+    nucs = {}
+    for i in range(nn):
+        mic = new(Micro, chi=arr(chi[i], ng), fission=arr([q[i] * f[0], q[i] * f[1]], ng), neutronsPerFission=arr(u, ng))
+        nucs[NAMES[i] + SFX] = new(Nuclide, name=NAMES[i], micros=mic)
+    lib = new(Library, nuclides=nucs, numGroups=ng)
+    inBlock = min(nn, 2)  # C (if present in the library) is not part of the composition
+    blk = new(Block, dens={NAMES[i]: dens[i] for i in range(inBlock)})
+    F = [q[i] * sum([u[g] * f[g] for g in range(ng)]) for i in range(3)]
+    return lib, blk, inBlock, F
+
+
+@lemma(gen={"nn": (1, 3), "ng": (1, 2)})
+def block_chi_is_the_fission_source_weighted_average(nn: int, ng: int, n1: float, n2: float,
+                                                     x1: float, x2: float, y1: float, y2: float, z1: float, z2: float,
+                                                     f1: float, f2: float, u1: float, u2: float, q2: float, q3: float):
+    """computeBlockAverageChi: chi_g x sum_n N_n F_n = sum_n chi_g,n N_n F_n with F_n = sum_g' nu_n,g' sigma_f,n,g'
+    (DIF3D eq. 3.4b); the zero vector when there is no fission source; a library nuclide absent from the block
+    contributes nothing.  1..3 library nuclides (fission data of B, C = those of A scaled by q2, q3; own spectra)
+    x 1..2 groups; nuclide C is in the library but not in the block."""
+    nn = choose(nn, 1, 3)
+    ng = choose(ng, 1, 2)
+    dens = [n1, n2]
+    chi = [[x1, x2], [y1, y2], [z1, z2]]
+    lib, blk, inBlock, F = chi_case(nn, ng, dens, chi, [1.0, q2, q3], [f1, f2], [u1, u2])
+    c = xsc.computeBlockAverageChi(blk, lib)
+    assert c.shape == (ng,)
+    den = sum([dens[i] * F[i] for i in range(inBlock)])
+    for g in range(ng):
+        num = sum([chi[i][g] * dens[i] * F[i] for i in range(inBlock)])
+        if den != 0:
+            assert eq(c[g] * den, num), "fission-source-weighted average of the nuclide spectra"
+        else:
+            assert eq(c[g], 0.0), "no fission source: zero spectrum"
+
+
+@lemma(gen={"nn": (1, 2), "k": (0.1, 10.0)})
+def block_chi_is_normalised_and_scale_free(nn: int, n1: float, n2: float, x1: float, y1: float,
+                                           f1: float, f2: float, u1: float, u2: float, q2: float, k: float):
+    """two groups, 1..2 nuclides with normalised spectra (x, 1-x): the block spectrum is normalised whenever there is a
+    fission source, and does not depend on a common scaling k != 0 of the densities"""
+    nn = choose(nn, 1, 2)
+    dens = [n1, n2]
+    chi = [[x1, 1.0 - x1], [y1, 1.0 - y1], [0.0, 0.0]]
+    lib, blk, inBlock, F = chi_case(nn, 2, dens, chi, [1.0, q2, 0.0], [f1, f2], [u1, u2])
+    c = xsc.computeBlockAverageChi(blk, lib)
+    den = sum([dens[i] * F[i] for i in range(inBlock)])
+    if den != 0:
+        assert eq(c[0] + c[1], 1.0), "an average of normalised spectra is normalised"
+    assume(k != 0)
+    c2 = xsc.computeBlockAverageChi(new(Block, dens={NAMES[i]: k * dens[i] for i in range(inBlock)}), lib)
+    assert eq(c2[0], c[0]) and eq(c2[1], c[1]), "independent of a common scaling of the densities"
